@@ -32,7 +32,17 @@ fn gen_session(seed: u64, idx: u64) {
     let mut rng = simcore::Rng::derive(seed, idx, 1600);
     let cfg = GenCfg { max_threads: 4, max_calls: 3 };
     let mut ws = vec![];
-    let n = 1 + rng.usize_below(2);
+    // three of four sessions are "phased" (all threads first-use the same feature at the same
+    // moment, several features per session); the rest are free-form like the shuttle workloads
+    if idx % 4 != 3 {
+        let n = 1 + rng.usize_below(2);
+        for _ in 0..n {
+            let nthreads = 2 + rng.usize_below(3);
+            let phases = 3 + rng.usize_below(4);
+            ws.push(gen_phased_workload(&mut rng, nthreads, phases));
+        }
+    }
+    let n = if ws.is_empty() { 1 + rng.usize_below(2) } else { 0 };
     while ws.len() < n {
         let mut w = gen_workload(&mut rng, &cfg);
         if w.threads.len() < 2 || w.ncalls() < 2 {
